@@ -210,13 +210,16 @@ fn one<T: Flt>(acc: &mut Acc, cfg: &Cfg, pre: Option<f64>, mode: u8, n0: usize, 
 /// The README recipe, literally: process full chunks, one partial chunk, flush with None until
 /// new_length + delay frames exist, skip `delay`, keep `new_length`.
 fn recipe(acc: &mut Acc, cfg: &Cfg, pre: Option<f64>) -> Result<(), String> {
-    recipe_v(acc, cfg, pre, false)?;
-    recipe_v(acc, cfg, pre, true)
+    recipe_v(acc, cfg, pre, false, false)?;
+    recipe_v(acc, cfg, pre, false, true)?;
+    recipe_v(acc, cfg, pre, true, false)
 }
 
 /// `late_masked`: the event lies in the last, partial chunk of the clip, and the clip is channel 1
 /// of a two-channel resampler whose channel 0 is masked out and supplied with empty slices.
-fn recipe_v(acc: &mut Acc, cfg: &Cfg, pre: Option<f64>, late_masked: bool) -> Result<(), String> {
+/// `reused`: the resampler has already processed another clip (one call, for the sinc types
+/// after set_chunk_size to a quarter) and was reset() before this one.
+fn recipe_v(acc: &mut Acc, cfg: &Cfg, pre: Option<f64>, late_masked: bool, reused: bool) -> Result<(), String> {
     let r = cfg.nominal_ratio() * pre.unwrap_or(1.0);
     let len = 3000usize.max((40.0 / r) as usize);
     let sigma = 6.0 * (1.0f64).max(1.0 / r);
@@ -227,7 +230,18 @@ fn recipe_v(acc: &mut Acc, cfg: &Cfg, pre: Option<f64>, late_masked: bool) -> Re
         cfg2.channels = 2;
     }
     let what = if late_masked { "README recipe, event in the final partial chunk, channel 0 masked out and empty" } else { "README recipe" };
+    let what = if reused { "README recipe on a resampler that was used before (smaller chunk size, one call) and reset()" } else { what };
     let mut rs = cfg2.build::<f64>()?;
+    if reused {
+        if cfg.kind.is_sinc() {
+            rs.set_chunk_size((cfg.chunk / 4).max(1)).map_err(|e| e.to_string())?;
+        }
+        let need = rs.input_frames_next();
+        let earlier: Vec<Vec<f64>> = (0..cfg2.channels).map(|_| vec![0.5; need]).collect();
+        let mut ob = rs.output_buffer_allocate(true);
+        rs.process_into_buffer(&earlier, &mut ob, None).map_err(|e| e.to_string())?;
+        rs.reset();
+    }
     if let Some(rel) = pre {
         rs.set_resample_ratio_relative(rel, false).map_err(|e| e.to_string())?;
     }
